@@ -360,6 +360,15 @@ func classifyLoop(p *Prog, fn *ssa.Function, li *loopInfo, pf map[*ssa.Function]
 				continue
 			}
 			if drop, ok := droppedPrefix(e, ph, 0, emptyEnds); !ok || drop < 1 {
+				// or a non-empty suffix dropped: ph[:len(ph)-k], k ≥ 1
+				if sl, isSl := e.(*ssa.Slice); isSl && sl.X == ssa.Value(ph) && sl.Low == nil && sl.High != nil {
+					base, off := linear(sl.High)
+					if hc, isC := base.(*ssa.Call); isC && off <= -1 {
+						if bi, isB := hc.Call.Value.(*ssa.Builtin); isB && bi.Name() == "len" && hc.Call.Args[0] == ssa.Value(ph) {
+							continue
+						}
+					}
+				}
 				good = false
 				break
 			}
